@@ -16,19 +16,27 @@ from vlib import pathwalk
 EXEC = 'yaclib::detail::BaseCore::_executor'
 
 
+def _through_deref(fn, i):
+    """the expression under dereferences: `BaseCore& caller = *MoveToCaller(head)` names the same core"""
+    n = fn.sn(i)
+    while n is not None and n['k'] == 'UnaryOperator' and n.get('op') == '*':
+        n = fn.sn(n['ch'][0])
+    return n
+
+
 class StartWalker(pathwalk.Walker):
     def on_node(self, fn, n, st):
         k = n['k']
         loc = fn.loc(n)
         if k == 'BinaryOperator' and n['op'] == '=':
             l = fn.sn(n['ch'][0])
-            r = fn.sn(n['ch'][1])
+            r = _through_deref(fn, n['ch'][1])
             if l is not None and l['k'] == 'DeclRefExpr' and r is not None and \
                     r.get('cn') == 'yaclib::detail::MoveToCaller':
                 st.events.append(('rewind', fn.locals[l['id']]['n'], loc))
         elif k == 'DeclStmt':
             for v in n['vars']:
-                if 'init' in v and (fn.sn(v['init']) or {}).get('cn') == 'yaclib::detail::MoveToCaller':
+                if 'init' in v and (_through_deref(fn, v['init']) or {}).get('cn') == 'yaclib::detail::MoveToCaller':
                     st.events.append(('rewind', fn.locals[v['id']]['n'], loc))
         elif k == 'CXXOperatorCallExpr' and n.get('op') == '=' and n.get('args'):
             t = fn.sn(n['args'][0])
